@@ -133,6 +133,12 @@ def _parse_output(r):
 
 def _parse_error_trace(out):
     states = []
+    m0 = re.search(r'is violated by the initial state:\n((?:.+\n)+?)\n', out)
+    if m0:
+        try:
+            return [parse_state(m0.group(1).strip())]
+        except Exception as ex:
+            return [{'_raw': m0.group(1), '_err': str(ex)}]
     for m in re.finditer(r'^State \d+: <[^\n]*>\n((?:(?!^State \d+:|^\d+ states generated|^Error:|^Finished|^The number).*\n)+)', out, re.M):
         try:
             states.append(parse_state(m.group(1).strip()))
